@@ -772,6 +772,9 @@ func runC16(a runArgs) error {
 		case "free":
 			s, _ := strconv.ParseUint(f[5], 10, 64)
 			c16Free(e, int64(atoi(f[1])), int64(atoi(f[2])), atoi(f[3]), atoi(f[4]), s)
+		case "wire":
+			s, _ := strconv.ParseUint(f[3], 10, 64)
+			c16Wire(e, int64(atoi(f[1])), int64(atoi(f[2])), s, atoi(f[4]))
 		}
 		return e.Flush(a.out)
 	}
@@ -829,6 +832,15 @@ func runC16(a runArgs) error {
 			n = 128
 		}
 		c16Free(e, int64(1+rng.Intn(3)), int64(1+rng.Intn(4)), n, 1+rng.Intn(3), rng.U64())
+	}
+	// the limits as configured on a real connection, counted on the wire (Get, Observe, Observation.Cancel)
+	nwire := 24
+	if a.tier == "thorough" {
+		nwire = 240
+	}
+	for i := 0; i < nwire; i++ {
+		lims := [][2]int64{{1, 1}, {1, 2}, {2, 1}, {2, 2}, {3, 2}, {2, 3}}[i%6]
+		c16Wire(e, lims[0], lims[1], rng.U64(), 24+rng.Intn(24))
 	}
 	e.Extra["harness_s"] = time.Since(t0).Seconds()
 	return e.Flush(a.out)
